@@ -56,6 +56,7 @@ type Opts struct {
 	WetTopsoil bool // explicit hydraulic parameters with field capacities of 50-62 vol % (light clays, mucks): the mean water
 	// content of the top 30 cm exceeds 0.5, where the oxygen factor of the denitrification model changes sign
 	WinterCrops bool // rotation of winter crops only (a crop stands on the field in mid winter)
+	LowBulk     bool // measured bulk densities of 0.20-0.56 g/cm3 (peats, mucks) in some horizons: below the range of the heat conductivity formula
 	PTF         int  // 1..4: hydraulic parameters from this pedotransfer function (texture fractions and a pore volume in the soil file)
 }
 
@@ -190,6 +191,10 @@ func Random(r *rand.Rand, name string, o Opts) *Project {
 		}
 		if o.HighCorg {
 			h.Corg100 = between(r, 0, 600)
+		}
+		if o.LowBulk && (i == 0 || r.Intn(2) == 0) {
+			h.Bulk100 = between(r, 20, 56)
+			h.Corg100 = between(r, 1500, 4000)
 		}
 		if o.PTF > 0 {
 			// sand / silt / clay with at least 5 % each, sand at most 85 %; pore volume not below any function's field capacity
